@@ -46,3 +46,15 @@ func Scratch(tag string) string {
 	}
 	return d
 }
+
+// InitGrolNoMemLimit configures grol like InitGrol but leaves the memory limit to GOMEMLIMIT (child processes
+// whose memory behaviour is what is being observed).
+func InitGrolNoMemLimit() {
+	initOnce.Do(func() {
+		log.SetOutput(io.Discard)
+		log.SetLogLevelQuiet(log.Critical)
+		if err := extensions.Init(&extensions.Config{}); err != nil {
+			panic(err)
+		}
+	})
+}
